@@ -11,6 +11,14 @@ import Mathlib.Data.List.Perm.Subperm
 
 namespace Cirkit
 
+/-! ## lists -/
+
+theorem nodup_snoc {α : Type} {l : List α} {a : α} (h : l.Nodup) (ha : a ∉ l) : (l ++ [a]).Nodup := by
+  refine List.Nodup.append h (List.nodup_singleton _) ?_
+  intro x hx hx'
+  rw [List.mem_singleton.mp hx'] at hx
+  exact ha hx
+
 /-! ## association lists -/
 
 theorem alookup_nil {β : Type} (k : ℕ) : alookup ([] : List (ℕ × β)) k = none := rfl
@@ -105,6 +113,525 @@ theorem find_snd_eq_some_iff (l : List (ℕ × ℕ)) (hnd : (l.map (·.2)).Nodup
       · rintro (h' | h')
         · exfalso; apply h; rw [← h']
         · exact h'
+
+/-! ## `bfs` -/
+
+theorem length_le_of_nodup_lt {l : List ℕ} (hnd : l.Nodup) {L : ℕ} (h : ∀ x ∈ l, x < L) :
+    l.length ≤ L := by
+  have hsub : l ⊆ List.range L := fun x hx => List.mem_range.mpr (h x hx)
+  have := hnd.length_le_of_subset hsub
+  simpa using this
+
+/-- the step of the fold collecting the not yet seen operands of a dequeued node -/
+def newsStep (seen acc : List ℕ) (ch : ℕ) : List ℕ :=
+  if seen.contains ch || acc.contains ch then acc else acc ++ [ch]
+
+theorem newsStep_spec (seen acc : List ℕ) (ch : ℕ) (hacc : acc.Nodup) :
+    (newsStep seen acc ch).Nodup ∧
+      ∀ x, x ∈ newsStep seen acc ch ↔ x ∈ acc ∨ (x = ch ∧ x ∉ seen) := by
+  unfold newsStep
+  by_cases h1 : ch ∈ seen
+  · have : (seen.contains ch || acc.contains ch) = true := by simp [h1]
+    rw [if_pos this]
+    refine ⟨hacc, fun x => ⟨Or.inl, ?_⟩⟩
+    rintro (h | ⟨rfl, h⟩)
+    · exact h
+    · exact absurd h1 h
+  · by_cases h2 : ch ∈ acc
+    · have : (seen.contains ch || acc.contains ch) = true := by simp [h2]
+      rw [if_pos this]
+      refine ⟨hacc, fun x => ⟨Or.inl, ?_⟩⟩
+      rintro (h | ⟨rfl, _⟩)
+      · exact h
+      · exact h2
+    · have : ¬ (seen.contains ch || acc.contains ch) = true := by simp [h1, h2]
+      rw [if_neg this]
+      refine ⟨nodup_snoc hacc h2, fun x => ?_⟩
+      rw [List.mem_append, List.mem_singleton]
+      constructor
+      · rintro (h | rfl)
+        · exact Or.inl h
+        · exact Or.inr ⟨rfl, h1⟩
+      · rintro (h | ⟨rfl, _⟩)
+        · exact Or.inl h
+        · exact Or.inr rfl
+
+theorem news_spec (seen : List ℕ) (l acc : List ℕ) (hacc : acc.Nodup) :
+    (l.foldl (newsStep seen) acc).Nodup ∧
+      ∀ x, x ∈ l.foldl (newsStep seen) acc ↔ x ∈ acc ∨ (x ∈ l ∧ x ∉ seen) := by
+  induction l generalizing acc with
+  | nil => exact ⟨hacc, fun x => by simp⟩
+  | cons ch l ih =>
+    obtain ⟨h1, h2⟩ := newsStep_spec seen acc ch hacc
+    obtain ⟨h3, h4⟩ := ih (newsStep seen acc ch) h1
+    refine ⟨h3, fun x => ?_⟩
+    rw [List.foldl_cons, h4, h2, List.mem_cons]
+    constructor
+    · rintro ((h | ⟨h, h'⟩) | ⟨h, h'⟩)
+      · exact Or.inl h
+      · exact Or.inr ⟨Or.inl h, h'⟩
+      · exact Or.inr ⟨Or.inr h, h'⟩
+    · rintro (h | ⟨h | h, h'⟩)
+      · exact Or.inl (Or.inl h)
+      · exact Or.inl (Or.inr ⟨h, h'⟩)
+      · exact Or.inr ⟨h, h'⟩
+
+theorem bfsOrder_zero (operands : ℕ → List ℕ) (queue seen out : List ℕ) :
+    bfsOrder operands 0 queue seen out = out := by
+  cases queue <;> rfl
+
+theorem bfsOrder_succ_nil (operands : ℕ → List ℕ) (fuel : ℕ) (seen out : List ℕ) :
+    bfsOrder operands (fuel + 1) [] seen out = out := rfl
+
+theorem bfsOrder_succ_cons (operands : ℕ → List ℕ) (fuel n : ℕ) (queue seen out : List ℕ) :
+    bfsOrder operands (fuel + 1) (n :: queue) seen out =
+      bfsOrder operands fuel (queue ++ (operands n).foldl (newsStep seen) [])
+        (seen ++ (operands n).foldl (newsStep seen) []) (out ++ [n]) := rfl
+
+/-- `bfs` with enough fuel: the result has no duplicates, contains everything that was seen, stays
+    inside `{0, …, L-1}` and is closed under `operands`. -/
+theorem bfsOrder_spec (operands : ℕ → List ℕ) (L : ℕ) (hL : ∀ n < L, ∀ o ∈ operands n, o < L) :
+    ∀ (fuel : ℕ) (queue seen out : List ℕ), seen = out ++ queue → seen.Nodup → (∀ x ∈ seen, x < L) →
+      (∀ n ∈ out, ∀ o ∈ operands n, o ∈ seen) → L + 1 ≤ fuel + out.length →
+      (bfsOrder operands fuel queue seen out).Nodup ∧
+      (∀ x ∈ bfsOrder operands fuel queue seen out, x < L) ∧
+      (∀ n ∈ bfsOrder operands fuel queue seen out, ∀ o ∈ operands n,
+        o ∈ bfsOrder operands fuel queue seen out) ∧
+      (∀ x ∈ seen, x ∈ bfsOrder operands fuel queue seen out) := by
+  intro fuel
+  induction fuel with
+  | zero =>
+    intro queue seen out hs hnd hlt _ hfuel
+    exfalso
+    have hout : out.Nodup := by rw [hs] at hnd; exact hnd.of_append_left
+    have := length_le_of_nodup_lt hout (fun x hx => hlt x (by rw [hs]; exact List.mem_append_left _ hx))
+    omega
+  | succ fuel ih =>
+    intro queue seen out hs hnd hlt hcl hfuel
+    cases queue with
+    | nil =>
+      rw [bfsOrder_succ_nil]
+      rw [List.append_nil] at hs
+      subst hs
+      exact ⟨hnd, hlt, hcl, fun x hx => hx⟩
+    | cons n queue =>
+      rw [bfsOrder_succ_cons]
+      obtain ⟨hn1, hn2⟩ := news_spec seen (operands n) [] List.nodup_nil
+      have hnseen : n ∈ seen := by rw [hs]; simp
+      have hres := ih (queue ++ (operands n).foldl (newsStep seen) [])
+        (seen ++ (operands n).foldl (newsStep seen) []) (out ++ [n])
+        (by rw [hs]; simp)
+        (by
+          refine List.Nodup.append hnd hn1 ?_
+          intro x hx hx'
+          rcases (hn2 x).mp hx' with h | h
+          · cases h
+          · exact h.2 hx)
+        (by
+          intro x hx
+          rcases List.mem_append.mp hx with h | h
+          · exact hlt x h
+          · rcases (hn2 x).mp h with h | h
+            · cases h
+            · exact hL n (hlt n hnseen) x h.1)
+        (by
+          intro m hm o ho
+          rcases List.mem_append.mp hm with h | h
+          · exact List.mem_append_left _ (hcl m h o ho)
+          · rw [List.mem_singleton.mp h] at ho
+            by_cases hos : o ∈ seen
+            · exact List.mem_append_left _ hos
+            · exact List.mem_append_right _ ((hn2 o).mpr (Or.inr ⟨ho, hos⟩)))
+        (by simp only [List.length_append, List.length_singleton]; omega)
+      exact ⟨hres.1, hres.2.1, hres.2.2.1, fun x hx => hres.2.2.2 x (List.mem_append_left _ hx)⟩
+
+/-! ## Kahn's algorithm -/
+
+/-- `l` lists every node after all of its operands -/
+def Topo (operands : ℕ → List ℕ) (l : List ℕ) : Prop :=
+  ∀ l1 x l2, l = l1 ++ x :: l2 → ∀ o ∈ operands x, o ∈ l1
+
+theorem Topo.nil (operands : ℕ → List ℕ) : Topo operands [] := by
+  intro l1 x l2 h
+  cases l1 <;> cases h
+
+theorem Topo.snoc {operands : ℕ → List ℕ} {l : List ℕ} {a : ℕ} (h : Topo operands l)
+    (ha : ∀ o ∈ operands a, o ∈ l) : Topo operands (l ++ [a]) := by
+  intro l1 x l2 he o ho
+  rcases List.eq_nil_or_concat l2 with rfl | ⟨l2', b, rfl⟩
+  · have := List.append_inj' (t₁ := [a]) (t₂ := [x]) he rfl
+    obtain ⟨h1, h2⟩ := this
+    cases h2
+    rw [← h1]
+    exact ha o ho
+  · have he' : l ++ [a] = (l1 ++ x :: l2') ++ [b] := by rw [he]; simp
+    obtain ⟨h1, _⟩ := List.append_inj' he' rfl
+    exact h l1 x l2' h1 o ho
+
+/-- pending-input counter of `n` -/
+def cnt (counts : List (ℕ × ℕ)) (n : ℕ) : ℕ := (alookup counts n).getD 0
+
+theorem alookup_map_upd (counts : List (ℕ × ℕ)) (n v m : ℕ) :
+    alookup (counts.map fun p => if p.1 == n then (n, v) else p) m =
+      if m = n then (alookup counts n).map (fun _ => v) else alookup counts m := by
+  induction counts with
+  | nil => simp [alookup_nil]
+  | cons p l ih =>
+    rw [List.map_cons, alookup_cons, alookup_cons, alookup_cons, ih]
+    by_cases h1 : p.1 = n
+    · by_cases h2 : m = n
+      · subst h2; simp [h1]
+      · have : ¬ n = m := fun e => h2 e.symm
+        simp [h1, h2, this]
+    · have hb : (p.1 == n) = false := by simpa using h1
+      by_cases h2 : m = n
+      · subst h2; simp [hb, h1]
+      · simp [hb, h2]
+
+theorem cnt_dec (counts : List (ℕ × ℕ)) (n m : ℕ) :
+    cnt (counts.map fun p => if p.1 == n then (n, cnt counts n - 1) else p) m =
+      if m = n then cnt counts n - 1 else cnt counts m := by
+  unfold cnt
+  rw [alookup_map_upd]
+  by_cases h : m = n
+  · simp only [h, if_true]
+    cases alookup counts n <;> simp
+  · simp only [h, if_false]
+
+theorem alookup_map_mk (l : List ℕ) (f : ℕ → ℕ) (k : ℕ) :
+    alookup (l.map fun n => (n, f n)) k = if k ∈ l then some (f k) else none := by
+  induction l with
+  | nil => simp [alookup_nil]
+  | cons a l ih =>
+    rw [List.map_cons, alookup_cons, ih]
+    by_cases h : a = k
+    · subst h; simp
+    · have : ¬ k = a := fun e => h e.symm
+      simp [h, this]
+
+/-- the inner loop body of `topological_ordering`: decrement the counter of a consumer, enqueue it
+    when the counter reaches 0 -/
+def kstep (acc : List (ℕ × ℕ) × List ℕ) (n : ℕ) : List (ℕ × ℕ) × List ℕ :=
+  let c := (alookup acc.1 n).getD 0
+  let acc1 := acc.1.map fun p => if p.1 == n then (n, c - 1) else p
+  if c - 1 == 0 && c != 0 then (acc1, acc.2 ++ [n]) else (acc1, acc.2)
+
+theorem kstep_fst (acc : List (ℕ × ℕ) × List ℕ) (n : ℕ) :
+    (kstep acc n).1 = acc.1.map fun p => if p.1 == n then (n, cnt acc.1 n - 1) else p := by
+  unfold kstep cnt
+  simp only
+  split <;> rfl
+
+theorem kstep_snd (acc : List (ℕ × ℕ) × List ℕ) (n : ℕ) :
+    (kstep acc n).2 = if cnt acc.1 n = 1 then acc.2 ++ [n] else acc.2 := by
+  unfold kstep cnt
+  simp only
+  by_cases h : (alookup acc.1 n).getD 0 = 1
+  · simp [h]
+  · rw [if_neg h, if_neg]
+    simp only [Bool.and_eq_true, beq_iff_eq, bne_iff_ne, ne_eq]
+    omega
+
+theorem kahn_zero (operands : ℕ → List ℕ) (nodes queue : List ℕ) (counts : List (ℕ × ℕ))
+    (out : List ℕ) : kahn operands nodes 0 queue counts out = out := by
+  cases queue <;> rfl
+
+theorem kahn_succ_nil (operands : ℕ → List ℕ) (nodes : List ℕ) (fuel : ℕ) (counts : List (ℕ × ℕ))
+    (out : List ℕ) : kahn operands nodes (fuel + 1) [] counts out = out := rfl
+
+theorem kahn_succ_cons (operands : ℕ → List ℕ) (nodes : List ℕ) (fuel child : ℕ) (queue : List ℕ)
+    (counts : List (ℕ × ℕ)) (out : List ℕ) :
+    kahn operands nodes (fuel + 1) (child :: queue) counts out =
+      kahn operands nodes fuel
+        (queue ++ ((outgoings operands nodes child).foldl kstep (counts, [])).2)
+        ((outgoings operands nodes child).foldl kstep (counts, [])).1 (out ++ [child]) := rfl
+
+/-- effect of the inner loop over a list `l` of consumers -/
+theorem kfold_spec (l : List ℕ) : ∀ (counts : List (ℕ × ℕ)) (ready0 : List ℕ),
+    (∀ m, cnt (l.foldl kstep (counts, ready0)).1 m = cnt counts m - l.count m) ∧
+    ∃ r, (l.foldl kstep (counts, ready0)).2 = ready0 ++ r ∧ r.Nodup ∧
+      ∀ m, m ∈ r ↔ 1 ≤ cnt counts m ∧ cnt counts m ≤ l.count m := by
+  induction l with
+  | nil =>
+    intro counts ready0
+    refine ⟨fun m => by simp, [], by simp, List.nodup_nil, fun m => ?_⟩
+    simp only [List.not_mem_nil, List.count_nil, false_iff]
+    omega
+  | cons n l ih =>
+    intro counts ready0
+    obtain ⟨h1, r', h2, h3, h4⟩ := ih (kstep (counts, ready0) n).1 (kstep (counts, ready0) n).2
+    have hc : ∀ m, cnt (kstep (counts, ready0) n).1 m =
+        if m = n then cnt counts n - 1 else cnt counts m := by
+      intro m; rw [kstep_fst]; exact cnt_dec counts n m
+    have hcount : ∀ m, (n :: l).count m = l.count m + if m = n then 1 else 0 := by
+      intro m
+      rw [List.count_cons]
+      by_cases h : m = n
+      · subst h; simp
+      · have : ¬ n = m := fun e => h e.symm
+        simp [h, this]
+    rw [List.foldl_cons]
+    refine ⟨fun m => ?_, ?_⟩
+    · rw [h1 m, hc m, hcount m]
+      by_cases h : m = n
+      · subst h; simp only [if_true]; omega
+      · simp only [h, if_false]; omega
+    · rw [h2, kstep_snd]
+      by_cases h : cnt counts n = 1
+      · refine ⟨n :: r', by simp [h], ?_, fun m => ?_⟩
+        · refine List.nodup_cons.mpr ⟨?_, h3⟩
+          intro hn
+          have := (h4 n).mp hn
+          rw [hc n] at this
+          simp only [if_true] at this
+          omega
+        · rw [List.mem_cons, h4 m, hc m, hcount m]
+          by_cases hm : m = n
+          · subst hm; simp only [if_true, true_or, true_iff]; omega
+          · simp only [hm, if_false, false_or]; omega
+      · refine ⟨r', by simp [h], h3, fun m => ?_⟩
+        rw [h4 m, hc m, hcount m]
+        by_cases hm : m = n
+        · subst hm; simp only [if_true]; omega
+        · simp only [hm, if_false]; omega
+
+theorem count_filterMap_self (l : List ℕ) (child m x : ℕ) :
+    (l.filterMap fun ch => if ch == child then some m else none).count x =
+      if x = m then l.count child else 0 := by
+  induction l with
+  | nil => simp
+  | cons a l ih =>
+    by_cases h : a = child
+    · have : (a == child) = true := by simpa using h
+      rw [List.filterMap_cons_some (by rw [this]; rfl), List.count_cons, ih, List.count_cons]
+      by_cases hx : x = m
+      · subst hx; simp [this]
+      · have : ¬ m = x := fun e => hx e.symm
+        simp [hx, this]
+    · have hb : (a == child) = false := by simpa using h
+      rw [List.filterMap_cons_none (by rw [hb]; rfl), ih, List.count_cons]
+      simp [hb]
+
+theorem outgoings_count (operands : ℕ → List ℕ) (nodes : List ℕ) (hN : nodes.Nodup)
+    (child x : ℕ) :
+    (outgoings operands nodes child).count x = if x ∈ nodes then (operands x).count child else 0 := by
+  unfold outgoings
+  induction nodes with
+  | nil => simp
+  | cons m nodes ih =>
+    rw [List.nodup_cons] at hN
+    rw [List.flatMap_cons, List.count_append, ih hN.2, count_filterMap_self]
+    by_cases hx : x = m
+    · subst hx
+      simp [hN.1]
+    · simp [hx]
+
+theorem countP_snoc_out (out l : List ℕ) (child : ℕ) (hc : child ∉ out) :
+    l.countP (fun o => !(out ++ [child]).contains o) + l.count child =
+      l.countP (fun o => !out.contains o) := by
+  induction l with
+  | nil => simp
+  | cons a l ih =>
+    rw [List.countP_cons, List.countP_cons, List.count_cons, ← ih]
+    by_cases h : a = child
+    · subst h
+      simp [hc]
+      omega
+    · have hb : (a == child) = false := by simpa using h
+      by_cases ha : a ∈ out
+      · simp [ha, hb]
+      · simp [ha, hb, h]
+        omega
+
+theorem countP_out_eq_zero (out l : List ℕ) :
+    l.countP (fun o => !out.contains o) = 0 ↔ ∀ o ∈ l, o ∈ out := by
+  rw [List.countP_eq_zero]
+  simp
+
+/-- invariant of the main loop of `topological_ordering` -/
+structure KInv (operands : ℕ → List ℕ) (nodes queue : List ℕ) (counts : List (ℕ × ℕ))
+    (out : List ℕ) : Prop where
+  nodup : (out ++ queue).Nodup
+  sub : ∀ x ∈ out ++ queue, x ∈ nodes
+  cnt_eq : ∀ n ∈ nodes, cnt counts n = (operands n).countP (fun o => !out.contains o)
+  mem_iff : ∀ n ∈ nodes, (n ∈ out ++ queue ↔ ∀ o ∈ operands n, o ∈ out)
+  topo : Topo operands out
+
+theorem KInv.step {operands : ℕ → List ℕ} {nodes : List ℕ} (hN : nodes.Nodup) {child : ℕ}
+    {queue : List ℕ} {counts : List (ℕ × ℕ)} {out : List ℕ}
+    (h : KInv operands nodes (child :: queue) counts out) :
+    KInv operands nodes (queue ++ ((outgoings operands nodes child).foldl kstep (counts, [])).2)
+      ((outgoings operands nodes child).foldl kstep (counts, [])).1 (out ++ [child]) := by
+  obtain ⟨hcnt, r, hr, hrnd, hrmem⟩ := kfold_spec (outgoings operands nodes child) counts []
+  rw [List.nil_append] at hr
+  rw [hr]
+  have hog := outgoings_count operands nodes hN child
+  have hchild_nodes : child ∈ nodes := h.sub child (by simp)
+  have hchild_out : child ∉ out := by
+    have := h.nodup
+    rw [List.nodup_append] at this
+    intro hc
+    exact this.2.2 child hc child (by simp) rfl
+  have hr_nodes : ∀ m ∈ r, m ∈ nodes := by
+    intro m hm
+    have := (hrmem m).mp hm
+    rw [hog m] at this
+    by_contra hmn
+    rw [if_neg hmn] at this
+    omega
+  have hr_fresh : ∀ m ∈ r, m ∉ out ++ child :: queue := by
+    intro m hm hmem
+    have h1 := (hrmem m).mp hm
+    have hmn := hr_nodes m hm
+    rw [h.cnt_eq m hmn] at h1
+    have := (countP_out_eq_zero out (operands m)).mpr ((h.mem_iff m hmn).mp hmem)
+    omega
+  have hcnt' : ∀ n ∈ nodes, cnt ((outgoings operands nodes child).foldl kstep (counts, [])).1 n =
+      (operands n).countP (fun o => !(out ++ [child]).contains o) := by
+    intro n hn
+    rw [hcnt n, hog n, if_pos hn, h.cnt_eq n hn]
+    have := countP_snoc_out out (operands n) child hchild_out
+    omega
+  have hassoc : out ++ [child] ++ (queue ++ r) = (out ++ child :: queue) ++ r := by simp
+  constructor
+  · rw [hassoc]
+    refine List.Nodup.append h.nodup hrnd ?_
+    intro x hx hx'
+    exact hr_fresh x hx' hx
+  · rw [hassoc]
+    intro x hx
+    rcases List.mem_append.mp hx with hx | hx
+    · exact h.sub x hx
+    · exact hr_nodes x hx
+  · exact hcnt'
+  · intro n hn
+    rw [hassoc]
+    have hz := countP_out_eq_zero (out ++ [child]) (operands n)
+    constructor
+    · intro hmem
+      rcases List.mem_append.mp hmem with hmem | hmem
+      · intro o ho
+        exact List.mem_append_left _ ((h.mem_iff n hn).mp hmem o ho)
+      · apply hz.mp
+        have h1 := (hrmem n).mp hmem
+        rw [hog n, if_pos hn, h.cnt_eq n hn] at h1
+        have := countP_snoc_out out (operands n) child hchild_out
+        omega
+    · intro hall
+      have h0 := hz.mpr hall
+      have h2 := countP_snoc_out out (operands n) child hchild_out
+      by_cases hzero : (operands n).countP (fun o => !out.contains o) = 0
+      · exact List.mem_append_left _
+          ((h.mem_iff n hn).mpr ((countP_out_eq_zero out (operands n)).mp hzero))
+      · apply List.mem_append_right
+        rw [hrmem n, hog n, if_pos hn, h.cnt_eq n hn]
+        omega
+  · exact h.topo.snoc ((h.mem_iff child hchild_nodes).mp (by simp))
+
+/-- Kahn's algorithm with enough fuel outputs every node, operands first. -/
+theorem kahn_spec (operands : ℕ → List ℕ) (nodes : List ℕ) (hN : nodes.Nodup)
+    (hcl : ∀ n ∈ nodes, ∀ o ∈ operands n, o ∈ nodes)
+    (hac : ∀ n ∈ nodes, ∀ o ∈ operands n, o < n) :
+    ∀ (fuel : ℕ) (queue : List ℕ) (counts : List (ℕ × ℕ)) (out : List ℕ),
+      KInv operands nodes queue counts out → nodes.length + 1 ≤ fuel + out.length →
+      (∀ n ∈ nodes, n ∈ kahn operands nodes fuel queue counts out) ∧
+      Topo operands (kahn operands nodes fuel queue counts out) ∧
+      (kahn operands nodes fuel queue counts out).Nodup ∧
+      (∀ x ∈ kahn operands nodes fuel queue counts out, x ∈ nodes) := by
+  intro fuel
+  induction fuel with
+  | zero =>
+    intro queue counts out h hfuel
+    exfalso
+    have hout : out.Nodup := h.nodup.of_append_left
+    have := hout.length_le_of_subset (fun x hx => h.sub x (List.mem_append_left _ hx))
+    omega
+  | succ fuel ih =>
+    intro queue counts out h hfuel
+    cases queue with
+    | nil =>
+      rw [kahn_succ_nil]
+      have hall : ∀ n, n ∈ nodes → n ∈ out := by
+        intro n
+        induction n using Nat.strongRecOn with
+        | _ n ihn =>
+          intro hn
+          have := (h.mem_iff n hn).mpr (fun o ho => ihn o (hac n hn o ho) (hcl n hn o ho))
+          simpa using this
+      refine ⟨hall, h.topo, ?_, ?_⟩
+      · simpa using h.nodup
+      · intro x hx; exact h.sub x (List.mem_append_left _ hx)
+    | cons child queue =>
+      rw [kahn_succ_cons]
+      apply ih _ _ _ (h.step hN)
+      simp only [List.length_append, List.length_singleton]
+      omega
+
+/-- `pipeline_topological_ordering([root])` on a DAG whose nodes are `< L`, with the fuel the
+    model passes: the root is listed, operands come before consumers, no duplicates, every listed
+    circuit exists and the list is closed under operands. -/
+theorem pipelineOrder_spec (operands : ℕ → List ℕ) (L : ℕ)
+    (hL : ∀ n < L, ∀ o ∈ operands n, o < n) (root : ℕ) (hroot : root < L) :
+    root ∈ pipelineOrder operands (L + 1) root ∧
+    Topo operands (pipelineOrder operands (L + 1) root) ∧
+    (pipelineOrder operands (L + 1) root).Nodup ∧
+    (∀ x ∈ pipelineOrder operands (L + 1) root, x < L) ∧
+    (∀ n ∈ pipelineOrder operands (L + 1) root, ∀ o ∈ operands n,
+      o ∈ pipelineOrder operands (L + 1) root) := by
+  obtain ⟨hnd, hlt, hcl, hroot'⟩ := bfsOrder_spec operands L
+    (fun n hn o ho => Nat.lt_trans (hL n hn o ho) hn) (L + 1) [root] [root] [] rfl
+    (List.nodup_singleton _) (by simpa using hroot) (by simp) (by simp)
+  unfold pipelineOrder
+  simp only
+  generalize bfsOrder operands (L + 1) [root] [root] [] = nodes at hnd hlt hcl hroot'
+  have hlen : nodes.length ≤ L := length_le_of_nodup_lt hnd hlt
+  have hmem_inputs : ∀ n, n ∈ (((nodes.map fun n => (n, (operands n).length)).filter
+      (·.2 == 0)).map (·.1)) ↔ n ∈ nodes ∧ (operands n).length = 0 := by
+    intro n
+    simp only [List.mem_map, List.mem_filter, beq_iff_eq]
+    constructor
+    · rintro ⟨p, ⟨⟨m, hm, rfl⟩, h0⟩, rfl⟩
+      exact ⟨hm, h0⟩
+    · rintro ⟨hm, h0⟩
+      exact ⟨(n, (operands n).length), ⟨⟨n, hm, rfl⟩, h0⟩, rfl⟩
+  have hK : KInv operands nodes
+      (((nodes.map fun n => (n, (operands n).length)).filter (·.2 == 0)).map (·.1))
+      (nodes.map fun n => (n, (operands n).length)) [] := by
+    constructor
+    · rw [List.nil_append]
+      have hsub : (((nodes.map fun n => (n, (operands n).length)).filter (·.2 == 0)).map
+          (·.1)).Sublist ((nodes.map fun n => (n, (operands n).length)).map (·.1)) :=
+        List.Sublist.map _ List.filter_sublist
+      have hmap : (nodes.map fun n => (n, (operands n).length)).map (·.1) = nodes := by
+        simp [List.map_map, Function.comp_def]
+      rw [hmap] at hsub
+      exact hnd.sublist hsub
+    · intro x hx
+      rw [List.nil_append] at hx
+      exact ((hmem_inputs x).mp hx).1
+    · intro n hn
+      unfold cnt
+      rw [alookup_map_mk, if_pos hn]
+      simp
+    · intro n hn
+      rw [List.nil_append, hmem_inputs]
+      constructor
+      · rintro ⟨_, h0⟩ o ho
+        rw [List.length_eq_zero_iff.mp h0] at ho
+        cases ho
+      · intro hall
+        refine ⟨hn, ?_⟩
+        cases hop : operands n with
+        | nil => rfl
+        | cons a l =>
+          have := hall a (by rw [hop]; simp)
+          cases this
+    · exact Topo.nil operands
+  obtain ⟨h1, h2, h3, h4⟩ := kahn_spec operands nodes hnd hcl
+    (fun n hn o ho => hL n (hlt n hn) o ho) ((L + 1) * (L + 1) + (L + 1) + 1) _ _ [] hK
+    (by simp only [List.length_nil]; have := Nat.zero_le ((L + 1) * (L + 1)); omega)
+  exact ⟨h1 root (hroot' root (by simp)), h2, h3, fun x hx => hlt x (h4 x hx),
+    fun n hn o ho => h1 o (hcl n (h4 n hn) o ho)⟩
 
 namespace PState
 
@@ -255,6 +782,44 @@ theorem compile_token (s : PState) (c sc c' : ℕ) :
 theorem compile_active (s : PState) (c sc : ℕ) : (s.compile c sc).1.active = s.active := by
   rcases compile_fst s c sc with h | ⟨h, -⟩ <;> rw [h]
   exact compilePipeline_active s c sc
+
+/-! ## equations of `step` -/
+
+theorem step_newCircuit (s : PState) :
+    s.step .newCircuit = ({ s with operands := s.operands ++ [[]] }, .sc s.operands.length) := rfl
+
+theorem step_symOp (s : PState) (ops : List ℕ) :
+    s.step (.symOp ops) =
+      if ops.all (· < s.operands.length) && !ops.isEmpty then
+        ({ s with operands := s.operands ++ [ops] }, .sc s.operands.length)
+      else (s, .error) := rfl
+
+theorem step_newCtx (s : PState) :
+    s.step .newCtx = ({ s with ctxs := s.ctxs ++ [{}] }, .ctx s.ctxs.length) := rfl
+
+theorem step_compile (s : PState) (c : Option ℕ) (sc : ℕ) :
+    s.step (.compile c sc) = s.compile (c.getD s.active) sc := rfl
+
+theorem step_ccOp (s : PState) (c : Option ℕ) (ccs : List ℕ) :
+    s.step (.ccOp c ccs) =
+      if c.getD s.active ≥ s.ctxs.length ∨ ccs.isEmpty then (s, .error)
+      else
+        match ccs.mapM (s.symbolicOf (c.getD s.active)) with
+        | none => (s, .error)
+        | some scs =>
+            ({ s with operands := s.operands ++ [scs] } : PState).compile (c.getD s.active)
+              s.operands.length := rfl
+
+theorem step_enter (s : PState) (c : ℕ) :
+    s.step (.enter c) =
+      if c ≥ s.ctxs.length ∨ (s.ctx c).token.isSome then (s, .error)
+      else ({ s.setCtx c { s.ctx c with token := some s.active } with active := c }, .unit) := rfl
+
+theorem step_exit (s : PState) (c : ℕ) :
+    s.step (.exit c) =
+      match (s.ctx c).token with
+      | some prev => ({ s.setCtx c { s.ctx c with token := none } with active := prev }, .unit)
+      | none => (s, .error) := rfl
 
 /-! ## the invariant -/
 
@@ -428,15 +993,13 @@ theorem Inv.reg {s : PState} (h : s.Inv) (c sci : ℕ) (hc : c < s.ctxs.length)
       rw [hb]
       split
       · rw [List.map_append, List.map_singleton]
-        exact List.Nodup.append (h.left_nodup c) (List.nodup_singleton _)
-          (by simpa [List.Disjoint] using hfresh)
+        exact nodup_snoc (h.left_nodup c) hfresh
       · exact h.left_nodup c'
     · intro c'
       rw [hb]
       split
       · rw [List.map_append, List.map_singleton]
-        exact List.Nodup.append (h.right_nodup c) (List.nodup_singleton _)
-          (by simpa [List.Disjoint] using hccfresh)
+        exact nodup_snoc (h.right_nodup c) hccfresh
       · exact h.right_nodup c'
     · intro c' p hp
       rw [hb] at hp
@@ -491,12 +1054,293 @@ theorem Inv.reg {s : PState} (h : s.Inv) (c sci : ℕ) (hc : c < s.ctxs.length)
           · exact absurd (by rw [Prod.mk.injEq] at h'; exact h') he
         · exact Or.inl
     · rw [reg_log s c sci hk]
-      refine List.Nodup.append h.log_nodup (List.nodup_singleton _) ?_
-      intro x hx hx'
-      rw [List.mem_singleton.mp hx'] at hx
+      refine nodup_snoc h.log_nodup ?_
+      intro hx
       have := (h.log_iff c sci).mp hx
       rw [hk] at this
       cases this
+
+/-! ## `compilePipeline` and `compile` preserve the invariant -/
+
+theorem Inv.log_lt {s : PState} (h : s.Inv) {c sc : ℕ} (hm : (c, sc) ∈ s.compileLog) :
+    sc < s.operands.length := by
+  have := (h.log_iff c sc).mp hm
+  unfold compiledOf at this
+  rw [alookup_isSome_iff] at this
+  obtain ⟨p, hp, rfl⟩ := List.mem_map.mp this
+  exact h.sc_lt c p hp
+
+theorem reg_log_ext (s : PState) (c sci : ℕ) :
+    ∃ ext, (s.reg c sci).compileLog = s.compileLog ++ ext := by
+  cases hk : s.compiledOf c sci with
+  | some cc => exact ⟨[], by rw [reg_of_some s c sci (by simp [hk])]; simp⟩
+  | none => exact ⟨[(c, sci)], reg_log s c sci hk⟩
+
+theorem Inv.reg_log_mem {s : PState} (h : s.Inv) (c sci : ℕ) :
+    (c, sci) ∈ (s.reg c sci).compileLog := by
+  cases hk : s.compiledOf c sci with
+  | some cc =>
+    rw [reg_of_some s c sci (by simp [hk])]
+    exact (h.log_iff c sci).mpr (by simp [hk])
+  | none => rw [reg_log s c sci hk]; simp
+
+theorem foldl_reg_spec (c : ℕ) : ∀ (l : List ℕ) (s : PState), s.Inv → c < s.ctxs.length →
+    (∀ x ∈ l, x < s.operands.length) →
+    (l.foldl (fun s sci => s.reg c sci) s).Inv ∧
+    (∃ ext, (l.foldl (fun s sci => s.reg c sci) s).compileLog = s.compileLog ++ ext) ∧
+    (∀ x ∈ l, (c, x) ∈ (l.foldl (fun s sci => s.reg c sci) s).compileLog) := by
+  intro l
+  induction l with
+  | nil => intro s h _ _; exact ⟨h, ⟨[], by simp⟩, fun x hx => by cases hx⟩
+  | cons a l ih =>
+    intro s h hc hl
+    have h1 : (s.reg c a).Inv := h.reg c a hc (hl a List.mem_cons_self)
+    obtain ⟨i1, ⟨ext, i2⟩, i3⟩ := ih (s.reg c a) h1 (by rw [reg_ctxs_length]; exact hc)
+      (by intro x hx; rw [reg_operands]; exact hl x (List.mem_cons_of_mem _ hx))
+    obtain ⟨ext0, he0⟩ := reg_log_ext s c a
+    rw [List.foldl_cons]
+    refine ⟨i1, ⟨ext0 ++ ext, by rw [i2, he0, List.append_assoc]⟩, ?_⟩
+    intro x hx
+    rcases List.mem_cons.mp hx with rfl | hx
+    · rw [i2]; exact List.mem_append_left _ (h.reg_log_mem c x)
+    · exact i3 x hx
+
+theorem Inv.compilePipeline {s : PState} (h : s.Inv) (c sc : ℕ) (hc : c < s.ctxs.length)
+    (hsc : sc < s.operands.length) :
+    (s.compilePipeline c sc).Inv ∧ (c, sc) ∈ (s.compilePipeline c sc).compileLog := by
+  obtain ⟨hroot, _, _, hlt, _⟩ := pipelineOrder_spec s.operandsOf s.operands.length h.dag sc hsc
+  obtain ⟨i1, _, i3⟩ := foldl_reg_spec c _ s h hc hlt
+  rw [compilePipeline_eq]
+  exact ⟨i1, i3 sc hroot⟩
+
+theorem Inv.compile {s : PState} (h : s.Inv) (c sc : ℕ) : (s.compile c sc).1.Inv := by
+  rcases compile_fst s c sc with e | ⟨e, hsc, hc, _⟩ <;> rw [e]
+  · exact h
+  · exact (h.compilePipeline c sc hc hsc).1
+
+/-- `compile` of an existing circuit in an existing context returns a compiled circuit and
+    registers it. -/
+theorem Inv.compile_registers {s : PState} (h : s.Inv) (c sc : ℕ) (hsc : sc < s.operands.length)
+    (hc : c < s.ctxs.length) :
+    ∃ cc, (s.compile c sc).2 = .cc cc ∧ (s.compile c sc).1.compiledOf c sc = some cc := by
+  have hg : ¬ (sc ≥ s.operands.length ∨ c ≥ s.ctxs.length) := by omega
+  cases hk : s.compiledOf c sc with
+  | some cc =>
+    rw [compile_of_some s c sc cc hg hk]
+    exact ⟨cc, rfl, hk⟩
+  | none =>
+    rw [compile_of_none s c sc hg hk]
+    obtain ⟨i1, i2⟩ := h.compilePipeline c sc hc hsc
+    have := (i1.log_iff c sc).mp i2
+    obtain ⟨cc, hcc⟩ := Option.isSome_iff_exists.mp this
+    exact ⟨cc, by simp only [hcc], hcc⟩
+
+/-! ## operands are compiled before their consumers -/
+
+/-- In the compile log every circuit comes after all of its operands (same context). -/
+def LogTopo (s : PState) : Prop :=
+  ∀ l1 c sc l2, s.compileLog = l1 ++ (c, sc) :: l2 → ∀ o ∈ s.operandsOf sc, (c, o) ∈ l1
+
+theorem split_snoc {α : Type} {l l1 l2 : List α} {a x : α} (he : l ++ [a] = l1 ++ x :: l2) :
+    (l = l1 ∧ a = x) ∨ ∃ l2', l = l1 ++ x :: l2' := by
+  rcases List.eq_nil_or_concat l2 with rfl | ⟨l2', b, rfl⟩
+  · obtain ⟨h1, h2⟩ := List.append_inj' (t₁ := [a]) (t₂ := [x]) he rfl
+    cases h2
+    exact Or.inl ⟨h1, rfl⟩
+  · have he' : l ++ [a] = (l1 ++ x :: l2') ++ [b] := by rw [he]; simp
+    obtain ⟨h1, _⟩ := List.append_inj' he' rfl
+    exact Or.inr ⟨l2', h1⟩
+
+theorem LogTopo.reg {s : PState} (ht : s.LogTopo) (c sci : ℕ)
+    (hops : ∀ o ∈ s.operandsOf sci, (c, o) ∈ s.compileLog) : (s.reg c sci).LogTopo := by
+  cases hk : s.compiledOf c sci with
+  | some cc => rw [reg_of_some s c sci (by simp [hk])]; exact ht
+  | none =>
+    intro l1 c' sc' l2 he o ho
+    rw [reg_log s c sci hk] at he
+    rw [reg_operandsOf] at ho
+    rcases split_snoc he with ⟨h1, h2⟩ | ⟨l2', h1⟩
+    · cases h2
+      rw [← h1]
+      exact hops o ho
+    · exact ht l1 c' sc' l2' h1 o ho
+
+theorem foldl_reg_topo (c : ℕ) : ∀ (l : List ℕ) (s : PState), s.Inv → c < s.ctxs.length →
+    (∀ x ∈ l, x < s.operands.length) → s.LogTopo →
+    (∀ l1 x l2, l = l1 ++ x :: l2 → ∀ o ∈ s.operandsOf x, o ∈ l1 ∨ (c, o) ∈ s.compileLog) →
+    (l.foldl (fun s sci => s.reg c sci) s).LogTopo := by
+  intro l
+  induction l with
+  | nil => intro s _ _ _ ht _; exact ht
+  | cons a l ih =>
+    intro s h hc hl ht hrel
+    have h1 : (s.reg c a).Inv := h.reg c a hc (hl a List.mem_cons_self)
+    obtain ⟨ext0, he0⟩ := reg_log_ext s c a
+    rw [List.foldl_cons]
+    apply ih (s.reg c a) h1 (by rw [reg_ctxs_length]; exact hc)
+      (by intro x hx; rw [reg_operands]; exact hl x (List.mem_cons_of_mem _ hx))
+    · apply ht.reg
+      intro o ho
+      rcases hrel [] a l rfl o ho with h' | h'
+      · cases h'
+      · exact h'
+    · intro l1 x l2 he o ho
+      rw [reg_operandsOf] at ho
+      rcases hrel (a :: l1) x l2 (by rw [he]; rfl) o ho with h' | h'
+      · rcases List.mem_cons.mp h' with rfl | h'
+        · exact Or.inr (h.reg_log_mem c o)
+        · exact Or.inl h'
+      · right; rw [he0]; exact List.mem_append_left _ h'
+
+theorem LogTopo.compilePipeline {s : PState} (h : s.Inv) (ht : s.LogTopo) (c sc : ℕ)
+    (hc : c < s.ctxs.length) (hsc : sc < s.operands.length) : (s.compilePipeline c sc).LogTopo := by
+  obtain ⟨_, htopo, _, hlt, _⟩ := pipelineOrder_spec s.operandsOf s.operands.length h.dag sc hsc
+  rw [compilePipeline_eq]
+  exact foldl_reg_topo c _ s h hc hlt ht
+    (fun l1 x l2 he o ho => Or.inl (htopo l1 x l2 he o ho))
+
+theorem LogTopo.compile {s : PState} (h : s.Inv) (ht : s.LogTopo) (c sc : ℕ) :
+    (s.compile c sc).1.LogTopo := by
+  rcases compile_fst s c sc with e | ⟨e, hsc, hc, _⟩ <;> rw [e]
+  · exact ht
+  · exact ht.compilePipeline h c sc hc hsc
+
+/-- steps that keep the log, and the operands of logged circuits, keep `LogTopo` -/
+theorem LogTopo.of_same {s s' : PState} (ht : s.LogTopo) (hlog : s'.compileLog = s.compileLog)
+    (hop : ∀ c sc, (c, sc) ∈ s.compileLog → s'.operandsOf sc = s.operandsOf sc) : s'.LogTopo := by
+  intro l1 c sc l2 he o ho
+  rw [hlog] at he
+  rw [hop c sc (by rw [he]; simp)] at ho
+  exact ht l1 c sc l2 he o ho
+
+theorem LogTopo.append_operands {s : PState} (h : s.Inv) (ht : s.LogTopo) (ops : List ℕ) :
+    ({ s with operands := s.operands ++ [ops] } : PState).LogTopo :=
+  ht.of_same rfl (fun _ sc hm => operandsOf_append_lt s ops sc (h.log_lt hm))
+
+/-! ## every step preserves the invariant -/
+
+theorem mapM_option_mem {α β : Type} (f : α → Option β) :
+    ∀ (l : List α) (r : List β), l.mapM f = some r → ∀ y ∈ r, ∃ x ∈ l, f x = some y := by
+  intro l
+  induction l with
+  | nil =>
+    intro r h y hy
+    rw [List.mapM_nil] at h
+    cases h
+    cases hy
+  | cons a l ih =>
+    intro r h y hy
+    rw [List.mapM_cons] at h
+    cases hfa : f a with
+    | none => rw [hfa] at h; cases h
+    | some b =>
+      rw [hfa] at h
+      cases hl : l.mapM f with
+      | none => rw [hl] at h; cases h
+      | some bs =>
+        rw [hl] at h
+        cases h
+        rcases List.mem_cons.mp hy with rfl | hy
+        · exact ⟨a, List.mem_cons_self, hfa⟩
+        · obtain ⟨x, hx, hfx⟩ := ih bs hl y hy
+          exact ⟨x, List.mem_cons_of_mem _ hx, hfx⟩
+
+theorem Inv.symbolicOf_lt {s : PState} (h : s.Inv) {c cc sc : ℕ} (hk : s.symbolicOf c cc = some sc) :
+    sc < s.operands.length := by
+  unfold symbolicOf at hk
+  cases hf : (s.ctx c).bimap.find? (·.2 == cc) with
+  | none => rw [hf] at hk; cases hk
+  | some p =>
+    rw [hf] at hk
+    cases hk
+    exact h.sc_lt c p (List.mem_of_find?_eq_some hf)
+
+theorem ctx_setCtx_bimap (s : PState) (c c' : ℕ) (cs : CtxState) (hb : cs.bimap = (s.ctx c').bimap) :
+    ((s.setCtx c' cs).ctx c).bimap = (s.ctx c).bimap := by
+  rw [ctx_setCtx]
+  split
+  · next h => rw [hb, h.1]
+  · rfl
+
+/-- what a step does, up to the properties the invariants look at -/
+theorem step_cases (s : PState) (op : POp') :
+    ((∀ c, ((s.step op).1.ctx c).bimap = (s.ctx c).bimap) ∧ (s.step op).1.nextCc = s.nextCc ∧
+      (s.step op).1.compileLog = s.compileLog ∧ (s.step op).1.operands = s.operands) ∨
+    (∃ ops, (∀ o ∈ ops, o < s.operands.length) ∧
+      (s.step op).1 = { s with operands := s.operands ++ [ops] }) ∨
+    (∃ c sc, (s.step op).1 = (s.compile c sc).1) ∨
+    (∃ (c sc : ℕ) (scs ccs : List ℕ), ccs.mapM (s.symbolicOf c) = some scs ∧
+      (s.step op).1 = (({ s with operands := s.operands ++ [scs] } : PState).compile c sc).1) := by
+  cases op with
+  | newCircuit => exact Or.inr (Or.inl ⟨[], by simp, rfl⟩)
+  | symOp ops =>
+    rw [step_symOp]
+    split
+    · next h =>
+      rw [Bool.and_eq_true, List.all_eq_true] at h
+      exact Or.inr (Or.inl ⟨ops, fun o ho => by simpa using h.1 o ho, rfl⟩)
+    · exact Or.inl ⟨fun _ => rfl, rfl, rfl, rfl⟩
+  | newCtx =>
+    rw [step_newCtx]
+    exact Or.inl ⟨fun c => by rw [ctx_newCtx], rfl, rfl, rfl⟩
+  | compile c sc => exact Or.inr (Or.inr (Or.inl ⟨_, sc, rfl⟩))
+  | ccOp c ccs =>
+    rw [step_ccOp]
+    split
+    · exact Or.inl ⟨fun _ => rfl, rfl, rfl, rfl⟩
+    · cases hk : ccs.mapM (s.symbolicOf (c.getD s.active)) with
+      | none => exact Or.inl ⟨fun _ => rfl, rfl, rfl, rfl⟩
+      | some scs => exact Or.inr (Or.inr (Or.inr ⟨_, _, scs, ccs, hk, rfl⟩))
+  | enter c' =>
+    rw [step_enter]
+    split
+    · exact Or.inl ⟨fun _ => rfl, rfl, rfl, rfl⟩
+    · exact Or.inl ⟨fun c => ctx_setCtx_bimap s c c' _ rfl, rfl, rfl, rfl⟩
+  | exit c' =>
+    rw [step_exit]
+    split
+    · exact Or.inl ⟨fun c => ctx_setCtx_bimap s c c' _ rfl, rfl, rfl, rfl⟩
+    · exact Or.inl ⟨fun _ => rfl, rfl, rfl, rfl⟩
+  | isCompiled _ _ => exact Or.inl ⟨fun _ => rfl, rfl, rfl, rfl⟩
+  | hasSymbolic _ _ => exact Or.inl ⟨fun _ => rfl, rfl, rfl, rfl⟩
+  | getCompiled _ _ => exact Or.inl ⟨fun _ => rfl, rfl, rfl, rfl⟩
+  | getSymbolic _ _ => exact Or.inl ⟨fun _ => rfl, rfl, rfl, rfl⟩
+
+theorem Inv.step {s : PState} (h : s.Inv) (op : POp') : (s.step op).1.Inv := by
+  rcases step_cases s op with ⟨h1, h2, h3, h4⟩ | ⟨ops, h1, h2⟩ | ⟨c, sc, h1⟩ |
+      ⟨c, sc, scs, ccs, h1, h2⟩
+  · refine h.of_same h1 h2 h3 (by rw [h4]; exact Nat.le_refl _) ?_
+    intro sc hsc o ho
+    unfold operandsOf at ho
+    rw [h4] at hsc ho
+    exact h.dag sc hsc o ho
+  · rw [h2]; exact h.append_operands ops h1
+  · rw [h1]; exact h.compile c sc
+  · rw [h2]
+    apply Inv.compile
+    apply h.append_operands
+    intro o ho
+    obtain ⟨x, _, hx⟩ := mapM_option_mem _ ccs scs h1 o ho
+    exact h.symbolicOf_lt hx
+
+theorem LogTopo.step {s : PState} (h : s.Inv) (ht : s.LogTopo) (op : POp') :
+    (s.step op).1.LogTopo := by
+  rcases step_cases s op with ⟨_, _, h3, h4⟩ | ⟨ops, h1, h2⟩ | ⟨c, sc, h1⟩ |
+      ⟨c, sc, scs, ccs, h1, h2⟩
+  · exact ht.of_same h3 (fun _ sc _ => by unfold operandsOf; rw [h4])
+  · rw [h2]; exact ht.append_operands h ops
+  · rw [h1]; exact ht.compile h c sc
+  · rw [h2]
+    apply LogTopo.compile
+    · apply h.append_operands
+      intro o ho
+      obtain ⟨x, _, hx⟩ := mapM_option_mem _ ccs scs h1 o ho
+      exact h.symbolicOf_lt hx
+    · exact ht.append_operands h scs
+
+theorem logTopo_init : (({} : PState)).LogTopo := by
+  intro l1 c sc l2 he
+  cases l1 <;> cases he
 
 /-! ## `run` -/
 
@@ -532,44 +1376,6 @@ theorem run_append_fst (s : PState) (ops₁ ops₂ : List POp') :
 theorem run_snoc_fst (s : PState) (ops : List POp') (op : POp') :
     (s.run (ops ++ [op])).1 = ((s.run ops).1.step op).1 := by
   rw [run_append_fst, run_cons_fst, run_nil]
-
-/-! ## equations of `step` -/
-
-theorem step_newCircuit (s : PState) :
-    s.step .newCircuit = ({ s with operands := s.operands ++ [[]] }, .sc s.operands.length) := rfl
-
-theorem step_symOp (s : PState) (ops : List ℕ) :
-    s.step (.symOp ops) =
-      if ops.all (· < s.operands.length) && !ops.isEmpty then
-        ({ s with operands := s.operands ++ [ops] }, .sc s.operands.length)
-      else (s, .error) := rfl
-
-theorem step_newCtx (s : PState) :
-    s.step .newCtx = ({ s with ctxs := s.ctxs ++ [{}] }, .ctx s.ctxs.length) := rfl
-
-theorem step_compile (s : PState) (c : Option ℕ) (sc : ℕ) :
-    s.step (.compile c sc) = s.compile (c.getD s.active) sc := rfl
-
-theorem step_ccOp (s : PState) (c : Option ℕ) (ccs : List ℕ) :
-    s.step (.ccOp c ccs) =
-      if c.getD s.active ≥ s.ctxs.length ∨ ccs.isEmpty then (s, .error)
-      else
-        match ccs.mapM (s.symbolicOf (c.getD s.active)) with
-        | none => (s, .error)
-        | some scs =>
-            ({ s with operands := s.operands ++ [scs] } : PState).compile (c.getD s.active)
-              s.operands.length := rfl
-
-theorem step_enter (s : PState) (c : ℕ) :
-    s.step (.enter c) =
-      if c ≥ s.ctxs.length ∨ (s.ctx c).token.isSome then (s, .error)
-      else ({ s.setCtx c { s.ctx c with token := some s.active } with active := c }, .unit) := rfl
-
-theorem step_exit (s : PState) (c : ℕ) :
-    s.step (.exit c) =
-      match (s.ctx c).token with
-      | some prev => ({ s.setCtx c { s.ctx c with token := none } with active := prev }, .unit)
-      | none => (s, .error) := rfl
 
 /-! ## context tokens -/
 
@@ -639,6 +1445,168 @@ theorem enter_token (s : PState) (c : ℕ) (hc : c < s.ctxs.length) (hfree : (s.
   rw [step_enter_ok s c hc hfree]
   show ((s.setCtx c _).ctx c).token = _
   rw [ctx_setCtx_self _ _ _ hc]
+
+/-! ## whole histories -/
+
+theorem Inv.run {s : PState} (h : s.Inv) (ops : List POp') : (s.run ops).1.Inv := by
+  induction ops generalizing s with
+  | nil => exact h
+  | cons op ops ih => rw [run_cons_fst]; exact ih (h.step op)
+
+theorem LogTopo.run {s : PState} (h : s.Inv) (ht : s.LogTopo) (ops : List POp') :
+    (s.run ops).1.LogTopo := by
+  induction ops generalizing s with
+  | nil => exact ht
+  | cons op ops ih => rw [run_cons_fst]; exact ih (h.step op) (ht.step h op)
+
+/-! ## consequences of the invariant -/
+
+theorem Inv.bimap_bijection {s : PState} (h : s.Inv) (c sc cc : ℕ) :
+    s.compiledOf c sc = some cc ↔ s.symbolicOf c cc = some sc := by
+  unfold compiledOf symbolicOf
+  rw [alookup_eq_some_iff _ (h.left_nodup c), find_snd_eq_some_iff _ (h.right_nodup c)]
+
+theorem compile_idempotent' (s : PState) (c sc cc : ℕ) (hr : (s.compile c sc).2 = .cc cc) :
+    (s.compile c sc).1.compile c sc = ((s.compile c sc).1, .cc cc) := by
+  by_cases hg : sc ≥ s.operands.length ∨ c ≥ s.ctxs.length
+  · rw [compile_of_bad s c sc hg] at hr; cases hr
+  · cases hk : s.compiledOf c sc with
+    | some cc' =>
+      rw [compile_of_some s c sc cc' hg hk] at hr ⊢
+      cases hr
+      exact compile_of_some s c sc _ hg hk
+    | none =>
+      rw [compile_of_none s c sc hg hk] at hr ⊢
+      cases hk' : (s.compilePipeline c sc).compiledOf c sc with
+      | none => simp only [hk'] at hr; cases hr
+      | some cc'' =>
+        simp only [hk'] at hr ⊢
+        cases hr
+        apply compile_of_some _ _ _ _ _ hk'
+        rw [compilePipeline_operands, compilePipeline_ctxs_length]
+        exact hg
+
+theorem operands_compiled {s : PState} (h : s.Inv) (ht : s.LogTopo) (c sc : ℕ)
+    (hk : (s.compiledOf c sc).isSome) : ∀ o ∈ s.operandsOf sc, (s.compiledOf c o).isSome := by
+  intro o ho
+  obtain ⟨l1, l2, he⟩ := List.append_of_mem ((h.log_iff c sc).mpr hk)
+  have := ht l1 c sc l2 he o ho
+  exact (h.log_iff c o).mp (by rw [he]; exact List.mem_append_left _ this)
+
+/-! ## well-bracketed histories -/
+
+/-- Syntactically well-bracketed histories.  `busy` lists the contexts that may not be entered
+    (they are entered further out); `with c:` blocks nest, and a block never enters a context that
+    is already entered (re-entrance of an active context is not claimed). -/
+inductive WB : List ℕ → List POp' → Prop
+  | nil (busy : List ℕ) : WB busy []
+  | op (busy : List ℕ) (op : POp') (rest : List POp') : (∀ c, op ≠ .enter c) → (∀ c, op ≠ .exit c) →
+      WB busy rest → WB busy (op :: rest)
+  | block (busy : List ℕ) (c : ℕ) (body rest : List POp') : c ∉ busy → WB (c :: busy) body →
+      WB busy rest → WB busy (.enter c :: (body ++ .exit c :: rest))
+
+theorem step_active (s : PState) (op : POp') (h1 : ∀ c, op ≠ .enter c) (h2 : ∀ c, op ≠ .exit c) :
+    (s.step op).1.active = s.active := by
+  cases op with
+  | newCircuit => rfl
+  | symOp ops => rw [step_symOp]; split <;> rfl
+  | newCtx => rfl
+  | compile c' sc => exact compile_active s _ sc
+  | ccOp c' ccs =>
+    rw [step_ccOp]
+    split
+    · rfl
+    · split
+      · rfl
+      · rw [compile_active]
+  | enter c' => exact absurd rfl (h1 c')
+  | exit c' => exact absurd rfl (h2 c')
+  | isCompiled _ _ => rfl
+  | hasSymbolic _ _ => rfl
+  | getCompiled _ _ => rfl
+  | getSymbolic _ _ => rfl
+
+theorem step_enter_fail (s : PState) (c : ℕ) (h : ¬ c < s.ctxs.length) :
+    s.step (.enter c) = (s, .error) := by
+  rw [step_enter, if_pos]
+  left; omega
+
+theorem exit_token (s : PState) (c prev : ℕ) (h : (s.ctx c).token = some prev) :
+    ((s.step (.exit c)).1.ctx c).token = none ∧ (s.step (.exit c)).1.active = prev := by
+  have hc : c < s.ctxs.length := by
+    by_contra hc
+    rw [ctx_of_ge s c (by omega)] at h
+    cases h
+  rw [step_exit_ok s c prev h]
+  refine ⟨?_, rfl⟩
+  show ((s.setCtx c _).ctx c).token = none
+  rw [ctx_setCtx_self _ _ _ hc]
+
+/-- A well-bracketed history restores the active context and all tokens, provided the contexts
+    it may enter are free at the start. -/
+theorem WB.run_restores {busy : List ℕ} {ops : List POp'} (hwb : WB busy ops) :
+    ∀ s : PState, (∀ c, c ∉ busy → (s.ctx c).token = none) →
+      (s.run ops).1.active = s.active ∧ ∀ c, ((s.run ops).1.ctx c).token = (s.ctx c).token := by
+  induction hwb with
+  | nil busy => intro s _; exact ⟨rfl, fun _ => rfl⟩
+  | op busy op rest h1 h2 _ ih =>
+    intro s hfree
+    have htok : ∀ c, ((s.step op).1.ctx c).token = (s.ctx c).token :=
+      fun c => step_token s op c (h1 c) (h2 c)
+    obtain ⟨i1, i2⟩ := ih (s.step op).1 (fun c hc => by rw [htok]; exact hfree c hc)
+    rw [run_cons_fst]
+    exact ⟨by rw [i1, step_active s op h1 h2], fun c => by rw [i2, htok]⟩
+  | block busy c body rest hcb _ _ ihb ihr =>
+    intro s hfree
+    rw [run_cons_fst, run_append_fst, run_cons_fst]
+    by_cases hc : c < s.ctxs.length
+    · -- the block is entered
+      have hcfree := hfree c hcb
+      have ht1 : ((s.step (.enter c)).1.ctx c).token = some s.active := enter_token s c hc hcfree
+      have ht1' : ∀ c', c' ≠ c → ((s.step (.enter c)).1.ctx c').token = (s.ctx c').token := by
+        intro c' hne
+        exact step_token s (.enter c) c' (fun e => hne (by cases e; rfl)) (fun e => by cases e)
+      obtain ⟨_, b2⟩ := ihb (s.step (.enter c)).1 (by
+        intro c' hc'
+        rw [List.mem_cons, not_or] at hc'
+        rw [ht1' c' hc'.1]
+        exact hfree c' hc'.2)
+      have ht2 : ((((s.step (.enter c)).1.run body).1).ctx c).token = some s.active := by
+        rw [b2, ht1]
+      obtain ⟨e1, e2⟩ := exit_token _ c s.active ht2
+      have ht3 : ∀ c', (((((s.step (.enter c)).1.run body).1).step (.exit c)).1.ctx c').token =
+          (s.ctx c').token := by
+        intro c'
+        by_cases hne : c' = c
+        · subst hne; rw [e1, hcfree]
+        · rw [step_token _ (.exit c) c' (fun e => by cases e) (fun e => hne (by cases e; rfl)),
+            b2, ht1' c' hne]
+      obtain ⟨r1, r2⟩ := ihr _ (fun c' hc' => by rw [ht3]; exact hfree c' hc')
+      exact ⟨by rw [r1, e2], fun c' => by rw [r2, ht3]⟩
+    · -- the context object does not exist: `enter` and the matching `exit` are both refused
+      rw [step_enter_fail s c hc]
+      obtain ⟨b1, b2⟩ := ihb s (fun c' hc' => hfree c' (fun h => hc' (List.mem_cons_of_mem _ h)))
+      have ht2 : (((s.run body).1).ctx c).token = none := by rw [b2]; exact hfree c hcb
+      rw [step_exit_none _ c ht2]
+      obtain ⟨r1, r2⟩ := ihr (s.run body).1 (fun c' hc' => by rw [b2]; exact hfree c' hc')
+      exact ⟨by rw [r1, b1], fun c' => by rw [r2, b2]⟩
+
+theorem WB.exit_restores {busy : List ℕ} {body : List POp'} {c : ℕ} (hwb : WB (c :: busy) body)
+    (s : PState) (hc : c < s.ctxs.length) (hfree : ∀ c', c' ∉ busy → (s.ctx c').token = none)
+    (hcb : c ∉ busy) :
+    ((s.step (.enter c)).1.run body).1.active = c ∧
+      (((s.step (.enter c)).1.run body).1.step (.exit c)).1.active = s.active := by
+  constructor
+  · have h1 : (s.step (.enter c)).1.active = c := by rw [step_enter_ok s c hc (hfree c hcb)]
+    obtain ⟨b1, _⟩ := hwb.run_restores (s.step (.enter c)).1 (by
+      intro c' hc'
+      rw [List.mem_cons, not_or] at hc'
+      rw [step_token s (.enter c) c' (fun e => hc'.1 (by cases e; rfl)) (fun e => by cases e)]
+      exact hfree c' hc'.2)
+    rw [b1, h1]
+  · have := ((WB.block busy c body [] hcb hwb (WB.nil busy)).run_restores s hfree).1
+    rw [run_cons_fst, run_append_fst, run_cons_fst, run_nil] at this
+    exact this
 
 end PState
 
